@@ -442,6 +442,9 @@ func (x *exec) enterLoop(fr *frame, li *loopInfo, sin *State) *State {
 		g := x.evalBool(inv.E, x.loopEnv(fr, li, sin))
 		x.oblig(fr, sin, fmt.Sprintf("loop%d.inv%d.init", li.ordinal, i+1), inv.Label, pos, g, inv.Props)
 	}
+	if x.dry == 0 && x.claims("loopvar") {
+		x.loopCounterObligs(fr, li)
+	}
 	// dry run to find what the loop modifies
 	var body []*ssa.BasicBlock
 	for _, bb := range fr.rpo {
@@ -607,6 +610,145 @@ func (x *exec) enterLoop(fr *frame, li *loopInfo, sin *State) *State {
 	s.reach = x.c.Define(x.c.Fresh(fmt.Sprintf("reach.loop%d", li.ordinal)), "Bool", s.reach)
 	fr.pending = append(fr.pending, pendingInv{li})
 	return s
+}
+
+// loopCounterObligs: a local that the loop's latch increments by one (`for …; …; i++`) is the loop's counter;
+// the obligation `loopK.counter:<name>` says that no other statement of the loop body (nested loops included)
+// assigns it. Decided on the SSA of the real function (Static), no solver.
+func (x *exec) loopCounterObligs(fr *frame, li *loopInfo) {
+	isLatch := map[*ssa.BasicBlock]bool{}
+	for _, l := range li.latches {
+		isLatch[l] = true
+	}
+	counters := map[*ssa.Alloc]bool{}
+	for _, l := range li.latches {
+		for _, in := range l.Instrs {
+			st, ok := in.(*ssa.Store)
+			if !ok {
+				continue
+			}
+			a, ok := st.Addr.(*ssa.Alloc)
+			if !ok || a.Heap {
+				continue
+			}
+			bo, ok := st.Val.(*ssa.BinOp)
+			if !ok || bo.Op != token.ADD {
+				continue
+			}
+			ld, ok := bo.X.(*ssa.UnOp)
+			c, isC := bo.Y.(*ssa.Const)
+			if !ok || ld.X != a || !isC || c.Value == nil || c.Value.ExactString() != "1" {
+				continue
+			}
+			counters[a] = true
+		}
+	}
+	for a := range counters {
+		bad := ""
+		for b := range li.body {
+			if isLatch[b] {
+				continue
+			}
+			for _, in := range b.Instrs {
+				if st, ok := in.(*ssa.Store); ok && st.Addr == a {
+					bad = x.p.Fset.Position(st.Pos()).String()
+				}
+			}
+		}
+		o := &Oblig{Base: fmt.Sprintf("%sloop%d.counter:%s", fr.prefix, li.ordinal, a.Comment), Kind: "loopvar", Func: x.fnName, pos: li.minPos, Hyp: "true", Goal: "true", C: x.c,
+			Static: "ok", Note: fmt.Sprintf("the counter %s of loop %d is assigned only by its own increment", a.Comment, li.ordinal)}
+		if bad != "" {
+			o.Static, o.Goal = "violated", "false"
+			o.Note = fmt.Sprintf("the counter %s of loop %d is also assigned inside the loop body at %s", a.Comment, li.ordinal, bad)
+		}
+		if li.minPos.IsValid() {
+			o.Pos = x.p.Fset.Position(li.minPos)
+		}
+		x.obligs = append(x.obligs, o)
+	}
+}
+
+// decodedUseObligs: in a decoder, a local whose address is handed to a call (x.Deserialize(r),
+// ReadElements(r, &x), …) has been filled from the stream; the obligation `decoded:<name>` says that the
+// function then uses it (loads it or a part of it, stores it somewhere, returns it) — a value that is read
+// from the stream and dropped cannot be reproduced by the codec. Decided on the SSA (Static), no solver.
+func (x *exec) decodedUseObligs(fn *ssa.Function) {
+	seen := map[string]int{}
+	for _, b := range fn.Blocks {
+		for _, in := range b.Instrs {
+			a, ok := in.(*ssa.Alloc)
+			if !ok || a.Comment == "" || a.Referrers() == nil {
+				continue
+			}
+			passed, used := false, false
+			var visit func(v ssa.Value, depth int)
+			visit = func(v ssa.Value, depth int) {
+				refs := v.Referrers()
+				if refs == nil || depth > 3 {
+					return
+				}
+				for _, r := range *refs {
+					switch u := r.(type) {
+					case *ssa.DebugRef:
+					case *ssa.Store:
+						if u.Val == v {
+							used = true // the address itself is stored somewhere: the value lives on
+						}
+						// a store INTO the local is not a use
+					case *ssa.UnOp:
+						used = true
+					case ssa.CallInstruction:
+						isDecode := false
+						cc := u.Common()
+						name := ""
+						if cc.IsInvoke() {
+							name = cc.Method.Name()
+						} else if sc := cc.StaticCallee(); sc != nil {
+							name = sc.Name()
+						}
+						ln := strings.ToLower(name)
+						if strings.HasPrefix(ln, "deserialize") || strings.HasPrefix(ln, "read") || strings.HasPrefix(ln, "decode") {
+							isDecode = true
+						}
+						if isDecode {
+							passed = true
+						} else {
+							used = true // handed to some other function
+						}
+					case *ssa.FieldAddr:
+						visit(u, depth+1)
+					case *ssa.IndexAddr:
+						visit(u, depth+1)
+					case *ssa.Slice:
+						visit(u, depth+1)
+					case *ssa.MakeInterface:
+						visit(u, depth+1)
+					default:
+						used = true
+					}
+				}
+			}
+			visit(a, 0)
+			if !passed {
+				continue
+			}
+			base := "decoded:" + a.Comment
+			seen[base]++
+			if seen[base] > 1 {
+				base = fmt.Sprintf("%s@%d", base, seen[base])
+			}
+			o := &Oblig{Base: base, Kind: "decoded", Func: x.fnName, pos: a.Pos(), Hyp: "true", Goal: "true", C: x.c,
+				Static: "ok", Note: fmt.Sprintf("the local %s is filled by a decode call and used afterwards", a.Comment)}
+			if !used {
+				o.Static, o.Goal = "violated", "false"
+				o.Note = fmt.Sprintf("the local %s is filled by a decode call and then never used: what was read from the stream is dropped", a.Comment)
+			}
+			if a.Pos().IsValid() {
+				o.Pos = x.p.Fset.Position(a.Pos())
+			}
+			x.obligs = append(x.obligs, o)
+		}
+	}
 }
 
 // checkBackEdges emits the preservation obligations of all loops of the frame.
